@@ -2,7 +2,10 @@
 //verif:pkg blockchain
 package blockchain
 
-import "github.com/btcsuite/btcd/wire/v2"
+import (
+	"github.com/btcsuite/btcd/btcutil/v2"
+	"github.com/btcsuite/btcd/wire/v2"
+)
 
 // C03(3): writing a view to the database (the block-disconnect path): for one (thorough: two) outpoints in arbitrary database
 // states and arbitrary view entries (absent, nil, unmodified, modified unspent, modified spent - each with or
@@ -107,5 +110,31 @@ func VH_persisted_pubkey_script_faithful() {
 	for i := range script {
 		vAssert(back.PkScript()[i] == script[i], "the persisted output reports exactly the original script")
 	}
+	vReach("end")
+}
+
+// C03(5): the cache and the view agree on which outputs exist: for an output whose script is spendable, starts
+// with OP_RETURN, does not parse (truncated push) or is a lone data-push opcode, utxoCache.addTxOut and
+// UtxoViewpoint.AddTxOut create an entry in exactly the same cases - the provably unspendable ones (OP_RETURN or
+// unparseable) are never added - so that connecting a block through the cache and disconnecting it through a view
+// stay inverse.
+//verif:opts reach=end
+func VH_cache_and_view_agree_on_unspendable() {
+	scripts := [][]byte{{0x51}, {0x6a}, {0x6a, 0x01, 0x07}, {0x02, 0x01}, {0x4c}, {0x00, 0x14, 1, 2, 3}, {}}
+	s := scripts[vNondetLen("script", len(scripts)-1)]
+	cache, _, ops := vSetup()
+	err := cache.addTxOut(ops[0], &wire.TxOut{Value: 546, PkScript: s}, vNondetBool("coinbase"), 5)
+	vAssert(err == nil, "addTxOut succeeds")
+	m := wire.NewMsgTx(1)
+	m.AddTxIn(&wire.TxIn{})
+	m.AddTxOut(&wire.TxOut{Value: 546, PkScript: s})
+	tx := btcutil.NewTx(m)
+	view := NewUtxoViewpoint()
+	view.AddTxOut(tx, 0, 5)
+	inView := view.LookupEntry(wire.OutPoint{Hash: *tx.Hash(), Index: 0}) != nil
+	inCache := vReported(cache, ops[0]).exists
+	vAssert(inView == inCache, "cache and view add the same outputs")
+	unspendable := (len(s) > 0 && s[0] == 0x6a) || (len(s) == 2 && s[0] == 0x02) || (len(s) == 1 && s[0] == 0x4c) || (len(s) == 5)
+	vAssert(inCache == !unspendable, "provably unspendable outputs (OP_RETURN or unparseable) never enter the set")
 	vReach("end")
 }
